@@ -41,7 +41,7 @@ pub(crate) fn add_tlv(k: usize) -> (u16, usize, usize, u8) { unsafe { ADD_TLV[k]
 pub(crate) fn add_cap() -> usize { unsafe { ADD_CAP } }
 
 // @harness c15_tlv_builder_readback
-// @props C15 C04 C03
+// @props C15:quick C04:quick C03:quick
 // @tier quick
 // @features none
 // @timeout 900
